@@ -103,10 +103,10 @@ func (c *vconn) SetWriteDeadline(t time.Time) error { return nil }
 // vlm hands connections to the server's incoming connection worker.
 type vlm struct{ ch chan tcp.ConnWithVRF }
 
-func (l *vlm) ListenAddrsPerVRF(*vrf.VRF) []string         { return []string{"0.0.0.0:179"} }
-func (l *vlm) GetListeners(*vrf.VRF) []tcp.ListenerI        { return nil }
-func (l *vlm) CreateListenersIfNotExists(*vrf.VRF) error    { return nil }
-func (l *vlm) AcceptCh() chan tcp.ConnWithVRF               { return l.ch }
+func (l *vlm) ListenAddrsPerVRF(*vrf.VRF) []string       { return []string{"0.0.0.0:179"} }
+func (l *vlm) GetListeners(*vrf.VRF) []tcp.ListenerI     { return nil }
+func (l *vlm) CreateListenersIfNotExists(*vrf.VRF) error { return nil }
+func (l *vlm) AcceptCh() chan tcp.ConnWithVRF            { return l.ch }
 
 type sessCfg struct {
 	IBGP    bool   `json:"ibgp"`
@@ -114,7 +114,7 @@ type sessCfg struct {
 	Role    string `json:"role"`
 	Strict  bool   `json:"strict"`
 	AddPath bool   `json:"addpath"`
-	RRC     string `json:"rrc"` // "no" | "default" (cluster id = router id) | "explicit" (cluster id 7)
+	RRC     string `json:"rrc"`   // "no" | "default" (cluster id = router id) | "explicit" (cluster id 7)
 	Other   bool   `json:"other"` // a session with a second peer (same VRF, same local AS) is established throughout
 }
 
